@@ -374,13 +374,16 @@ def _emit_fn(g, source, a, blocks, vacuity, probe_insert=None):
     f.orig = it.text
     rules = f.rules
     sig_src, body_src = it.sig_text, it.body_text
+    if a.get("bind"):
+        from rsx import rebind_locals
+        body_src = rebind_locals(body_src, a["bind"], f.name, rules)
     fname = f.item.split("/")[-1].strip().replace("fn ", "").strip()
     if a.get("async_block"):
         # R11c: the n-th `async [move] { BODY }` block of the function is verified as the anonymous async fn it is:
         # `async fn NAME(<captured variables, declared by the unit>) -> T { BODY }`.  BODY is the real text; a captured
         # variable the unit did not declare (or declared with the wrong type) is a type error => exit 2.
         from rsx import full_tokens as _ft, match_close as _mc3
-        btoks = _ft(it.body_text)
+        btoks = _ft(body_src)
         sig_i = [k for k, t in enumerate(btoks) if t.kind not in ("ws", "comment")]
         want, seen, found = int(a["async_block"]), 0, None
         for q, k in enumerate(sig_i):
@@ -402,7 +405,7 @@ def _emit_fn(g, source, a, blocks, vacuity, probe_insert=None):
         # R11f: the n-th zero-argument `move || { BODY }` closure of the function (a thread body) is verified as the
         # function it is: `fn NAME(<captured variables, declared by the unit>) { BODY }` -- same idea as R11c
         from rsx import full_tokens as _ft2, match_close as _mc7
-        btoks = _ft2(it.body_text)
+        btoks = _ft2(body_src)
         sig_i = [k for k, t in enumerate(btoks) if t.kind not in ("ws", "comment")]
         want, seen, found = int(a["closure_block"]), 0, None
         for q, k in enumerate(sig_i):
